@@ -245,7 +245,7 @@ func (p *Program) contractMods(con *Contract, sig *types.Signature, out ModSet) 
 
 func ghostName(src string) string {
 	for i, c := range src {
-		if c == ' ' || c == '+' || c == '=' {
+		if c == ' ' || c == '+' || c == '=' || c == '[' {
 			return src[:i]
 		}
 	}
